@@ -397,6 +397,7 @@ def validate_object(root, fixity=True):
             E("E010", "version directory %s missing" % vname)
 
     found = {}
+    spec_seq = []      # inventory types of v1, v2, ... (where an inventory is stored), then the root's
     mx = max(vnums) if vnums else 0
     for vn, vname in sorted(vnums.items()):
         vdir = os.path.join(root, vname)
@@ -446,6 +447,8 @@ def validate_object(root, fixity=True):
                 if vb != inv_bytes:
                     E("E064", "head version inventory differs from the root inventory")
                 _check_sidecar(vdir, vb, alg, errs, vname + ": ")
+                if info["type"] in SPEC_TYPES.values():
+                    spec_seq.append(info["type"])
             else:
                 vinv, perr = parse_json(vb)
                 if perr:
@@ -463,9 +466,8 @@ def validate_object(root, fixity=True):
                     E("E019", "%s inventory has a different contentDirectory" % vname)
                 if vinfo["head"] != vname:
                     E("E040", "%s inventory head is %r" % (vname, vinfo["head"]))
-                if vinfo["type"] in SPEC_TYPES.values() and info["type"] in SPEC_TYPES.values():
-                    if vinfo["type"] > info["type"]:
-                        E("E103", "older version conforms to a later spec")
+                if vinfo["type"] in SPEC_TYPES.values():
+                    spec_seq.append(vinfo["type"])
                 # states of shared versions must agree as logical path -> content
                 if vinfo["versions"] and info["versions"] and vinfo["manifest"] is not None and info["manifest"] is not None:
                     same_alg = vinfo["alg"] == alg
@@ -517,6 +519,12 @@ def validate_object(root, fixity=True):
                         if fv <= vn and rel not in oldpaths:
                             E("E023", "%s is not in the manifest of %s" % (rel, vname))
         # absent version inventory: W010 (warning only)
+    # 3.7.1 E103: each version directory conforms to the same or a later specification version than the
+    # PRECEDING one - the whole sequence v1 .. head, root must be non-decreasing (not only each against the root)
+    if info["type"] in SPEC_TYPES.values():
+        spec_seq.append(info["type"])
+    if any(a > b_ for a, b_ in zip(spec_seq, spec_seq[1:])):
+        E("E103", "a version directory conforms to an earlier specification version than its predecessor")
 
     if info["manifest"] is not None:
         mp = {}
